@@ -19,7 +19,7 @@ from .core import run_seed, canon, log_digest, RunTimeout
 
 PROPS = ["C03", "C04", "C05", "C07", "C08", "C09", "C13", "C15", "C16", "C17",
          "C18", "C20"]
-RUN_TIMEOUT_S = 30          # CPU seconds per run
+RUN_TIMEOUT_S = 60          # CPU seconds per run
 RUN_WALL_TIMEOUT_S = 600     # wall-clock fallback per run
 
 
